@@ -66,7 +66,7 @@ def layer_pointwise(ctx):
         pairs = [gens.euler_pair(rng, g, int(rng.integers(8))) for _ in range(n)]
         L = [np.array([p_[0][k] for p_ in pairs], dtype=float) for k in range(3)]
         R = [np.array([p_[1][k] for p_ in pairs], dtype=float) for k in range(3)]
-        m = impl.euler.euler1d(gamma=g)
+        m = impl.pool('euler1d', gamma=g)
         inp = dict(gamma=g, L=[x.tolist() for x in L], R=[x.tolist() for x in R])
         for name in sorted(m._numfluxdict.dict.keys()):
             _run(r, 'euler1d/numflux:' + name, inp, lambda a, m=m, name=name: m.numflux(name, a[:3], a[3:]), L + R, n)
@@ -95,7 +95,7 @@ def layer_pointwise(ctx):
                  lambda a, m=m, name=name, d=d, par=par: m.namedBC(name, d, a, dict(par)), Wb, n)
         # ---- shallow water
         gg = float(rng.choice([9.81, 1.0]))
-        ms = impl.shallowwater.shallowwater1d(g=gg)
+        ms = impl.pool('sw', g=gg)
         sp = [gens.sw_pair(rng, gg, int(rng.integers(7))) for _ in range(n)]
         Ls = [np.array([p_[0][k] for p_ in sp], dtype=float) for k in range(2)]
         Rs = [np.array([p_[1][k] for p_ in sp], dtype=float) for k in range(2)]
@@ -117,7 +117,7 @@ def layer_pointwise(ctx):
         _run(r, 'convection/numflux', dict(uL=u.tolist(), uR=v.tolist()), lambda a, mc=mc: mc.numflux(None, [a[0]], [a[1]]), [u, v], n)
         _run(r, 'convection/timestep', dict(u=u.tolist()), lambda a, mc=mc: [mc.timestep([a[0]], a[1], 0.7) * np.ones(len(a[1]))], [u, dx], n)
         # ---- Euler 2D: fluxes (normals mixed along the batch), conversions, variables, boundary states
-        m2 = impl.euler.euler2d(gamma=g)
+        m2 = impl.pool('euler2d', gamma=g)
         th = rng.uniform(0, 2 * np.pi, n); th2 = rng.uniform(0, 2 * np.pi, n)
         VL = np.abs(L[1]); VR = np.abs(R[1])
         L2 = [L[0], np.vstack([VL * np.cos(th), VL * np.sin(th)]), L[2]]
